@@ -19,6 +19,10 @@ def answer (line : String) : String :=
     | some a, some b, some c =>
       if a.length = 32 ∧ b.length = 32 ∧ c.length = 32 then "ok " ++ hxv (asBytes (scMulAdd (asFn a) (asFn b) (asFn c))) else "-"
     | _, _, _ => "-"
+  | ["c14.sccanon", x] =>
+    match parseV x with
+    | some x => if x.length = 32 then (if isReduced (asFn x) then "1" else "0") else "-"
+    | none => "-"
   | _ => "-"
 
 partial def loop (h : IO.FS.Stream) (out : IO.FS.Stream) : IO Unit := do
